@@ -22,7 +22,7 @@ import json
 from mc.gen import values as V
 from mc.ref import coerce as R
 
-READY = False
+READY = True
 LEVEL = "exploration"
 TECHNIQUE = "bounded-exhaustive enumeration of input types x value alphabets x placements x input routes against a reference transliteration of the spec's input coercion"
 LEVEL_TEXT = (
